@@ -20,6 +20,7 @@ import contextlib
 import hashlib
 import json
 import math
+import traceback
 
 import numpy as np
 
@@ -60,6 +61,8 @@ NSCENE = {"quick": {"contain2d": (60, 500), "heading": (60, 500), "contain3d": (
 FINDINGS = {  # stable keys; attributed only by the matchers in `attribute`
     "z": "pruned-polygon-loses-z", "soft": "non-hard-requirement-used-for-pruning", "loop": "containment-erosion-retry-loop",
     "offset": "containment-intersects-base-although-offset-exceeds-inradius", "wrap": "relative-heading-range-not-normalised",
+    "clip": "voxel-dilation-clipped-to-grid", "zcmp": "flat-container-intersection-compares-z",
+    "cansee": "cansee-point-rotated-before-translated",
 }
 
 
@@ -108,7 +111,11 @@ def probes(probe):
             if probe["calls"] > 10 ** 4 or seen[key] > 8:
                 probe["explosion"] = {"helper": f"{cls.__name__}.{name}", "args": repr(a)[:200], "identical_calls": seen[key], "total_calls": probe["calls"]}
                 raise HelperExplosion(name)
-            return orig(self, *a, **k)
+            res = orig(self, *a, **k)
+            if name == "dilation" and isinstance(a[0] if a else k.get("iterations"), int) and (a[0] if a else k["iterations"]) > 0 \
+                    and isinstance(res, R.VoxelRegion) and np.allclose(res.AABB, self.AABB):
+                probe.setdefault("clipped", []).append([[float(x) for x in c] for c in self.AABB])  # dilated, yet no larger than the grid
+            return res
         saved.append((cls, name, orig))
         setattr(cls, name, w)
 
@@ -184,8 +191,21 @@ def observe(scene):
     for o in scene.objects:
         out[int(o.cid)] = dict(pos=np.array([o.position.x, o.position.y, o.position.z], float), heading=float(o.heading),
                                R=np.array(o.orientation.r.as_matrix(), float), dims=np.array([o.width, o.length, o.height], float),
-                               vd=float(o.visibleDistance), cam=np.array(list(o.cameraOffset), float))
+                               vd=float(o.visibleDistance), cam=np.array(list(o.cameraOffset), float), va=tuple(float(a) for a in o.viewAngles))
     return out
+
+
+def centre_seen(e, p):
+    """Is point p inside observer e's view cone?  (as visibility.canSee's point branch computes it, as documented).
+    The point branch rotates the target into the viewer's frame and then subtracts the viewer's WORLD position."""
+    cam, res = e["pos"] + e["R"] @ e["cam"], []
+    if np.linalg.norm(p - cam) > e["vd"]:
+        return False, False
+    for v in (e["R"].T @ p - cam, e["R"].T @ (p - cam)):
+        v = v / np.linalg.norm(v)
+        az = (math.atan2(v[1], v[0]) - math.pi / 2 + math.pi) % math.tau - math.pi
+        res.append(abs(az) <= e["va"][0] / 2 and abs(math.asin(max(-1.0, min(1.0, v[2])))) <= e["va"][1] / 2)
+    return tuple(res)
 
 
 def base_point(spec, ob):
@@ -338,28 +358,46 @@ def conditioned_nodes(obj):
 
 
 # -- matchers attributing a violation to a specific defect (call site + input predicate) ---------
-def attribute(P, clause, info, stages):
-    i = info.get("object")
+def rh_causes(P, s, point):
+    """Known defects of the relative-heading pruner whose input predicate holds for object s (drawn at `point`)."""
+    keys = []
+    if any(r.kind != "require" and r.quantity == "rh" and r.pred is not None for r in P.reqs):
+        keys.append(FINDINGS["soft"])  # requirements.py compile(): relations are inferred whatever the statement kind / probability
+    hs = [prunegen.norm_angle(h) for _, h in P.cells]
+    here = hs if point is None else [h for (ring, _), h in zip(P.cells, hs) if rr.poly_sd([np.array(ring)], np.array(point[:1]), np.array(point[1:2]))[0] <= 0]
+    pairs = [p for h1 in here for h2 in hs for p in ([(h1, h2)] if s and s.name == "ego" else [(h2, h1)] if s else [(h1, h2), (h2, h1)])]
+    if any(abs(ht - he) > math.pi and r.pred(prunegen.norm_angle(ht - he)) for he, ht in pairs for r in P.reqs
+           if r.quantity == "rh" and r.pred is not None and (s is None or s.name in ("ego", r.target))):
+        keys.append(FINDINGS["wrap"])  # relativeHeadingRange: the difference of two normalised headings is not normalised, so a
+        # pair of cells (ego's, target's) whose true relative heading satisfies the bound is judged infeasible
+    return "+".join(keys) or None
+
+
+def attribute(P, clause, info, probe):
+    stages, i = probe.get("stages", {}), info.get("object")
     s = P.objs[i] if i is not None else None
-    if clause in ("feasible-position-pruned-away", "pruned-scene-outside-original-region", "pruning-reports-infeasible") and s is not None:
-        flat = isinstance(s.base, rr.Ref) and s.base.dim == 2 and not getattr(s.base, "hz", 0)
-        if flat and (info.get("how") == "polygon-z" or info.get("z_only")) and s.base.zs[0] != 0:
-            return FINDINGS["z"]  # regionFromShapelyObject: PolygonalRegion.intersect result has z = 0
-    if clause == "feasible-position-pruned-away" and s is not None and i in stages.get("pruneRelativeHeading", []) and info.get("how") == "polygon":
-        keys = []
-        if any(r.kind != "require" and r.quantity == "rh" and r.pred is not None for r in P.reqs):
-            keys.append(FINDINGS["soft"])  # requirements.py compile(): relations inferred whatever the statement kind / probability
-        hs = [prunegen.norm_angle(h) for _, h in P.cells]
-        here = [h for (ring, _), h in zip(P.cells, hs) if rr.poly_sd([np.array(ring)], np.array(info["point"][:1]), np.array(info["point"][1:2]))[0] <= 0]
-        pairs = [(h1, h2) if s.name == "ego" else (h2, h1) for h1 in here for h2 in hs]  # (ego's cell heading, target's cell heading)
-        if any(abs(ht - he) > math.pi and r.pred(prunegen.norm_angle(ht - he)) for he, ht in pairs for r in P.reqs
-               if r.quantity == "rh" and r.pred is not None and s.name in ("ego", r.target)):
-            keys.append(FINDINGS["wrap"])  # relativeHeadingRange: the difference of two normalised headings is not normalised,
-            # so a cell pair whose true relative heading satisfies the bound is judged infeasible
-        return "+".join(keys) or None
+    flat = lambda r: isinstance(r, rr.Ref) and r.dim == 2 and not getattr(r, "hz", 0)  # noqa: E731
+    if clause in ("feasible-position-pruned-away", "pruned-scene-outside-original-region") and s is not None:
+        if flat(s.base) and (info.get("how") == "polygon-z" or info.get("z_only")) and s.base.zs[0] != 0:
+            return FINDINGS["z"]  # regionFromShapelyObject: the result of PolygonalRegion.intersect has z = 0
+    if clause == "pruning-reports-infeasible" and info.get("phase") == "compile":
+        if "pruneRelativeHeading" in info["where"] and P.cells:
+            return rh_causes(P, None, None)
+        if "pruneContainment" in info["where"] and "does not fit in container" in info["exception"] and any(
+                flat(o.base) and flat(o.cont) and o.base.zs != o.cont.zs and "with regionContainedIn cont" in o.spec for o in P.objs):
+            return FINDINGS["zcmp"]  # PolygonalRegion.intersect(PolygonalRegion): different z gives nowhere, containment ignores z
     if clause == "feasible-position-pruned-away" and s is not None:
-        if s.on and s.base_offset is not None and i in stages.get("pruneContainment", []) and math.hypot(*s.base_offset[:2]) > 0:
-            return FINDINGS["offset"]  # pruneContainment: maxErosion <= 0 still intersects the base with the container
+        if i in stages.get("pruneRelativeHeading", []) and info.get("how") == "polygon" and P.cells:
+            return rh_causes(P, s, info["point"])
+        box = [b for b in probe.get("clipped", []) if any(abs(info["point"][k] - (b[0][k] + b[1][k]) / 2) > (b[1][k] - b[0][k]) / 2 for k in range(2 if flat(s.base) else 3))]
+        if i in stages.get("pruneVisibility", []) and info.get("centre_in_view_cone_as_computed_and_as_documented") == (True, False):
+            return FINDINGS["cansee"]  # visibility.canSee, point branch: rotates the target, then subtracts the viewer's world position
+        if i in stages.get("pruneVisibility", []) and box:
+            return FINDINGS["clip"]  # VoxelRegion.dilation: the dense array is not padded, the result never leaves the grid's box
+        p = np.array([[*info["point"][:2], s.cont.zs[0] if s.cont_flat else info["point"][2]]]) if s.cont is not None else None
+        if s.on and s.base_offset is not None and i in stages.get("pruneContainment", []) and float(s.cont.sd(p)[0]) > s.cont.tol:
+            return FINDINGS["offset"]  # pruneContainment: with maxErosion <= 0 the base is still intersected with the (uneroded) container,
+            # although the drawn point (position - offset) of a contained object may then lie outside the container itself
     if clause == "pruning-helper-call-explosion" and info.get("helper", "").endswith("_erodeOverapproximate") and info.get("identical_calls", 0) > 8:
         return FINDINGS["loop"]  # pruneContainment retries with PRUNING_PITCH instead of current_pitch
     return None
@@ -378,7 +416,7 @@ def run(tape):
 
     def viol(clause, info):
         d = dict(program=P.text[len(prunegen.HEADER):], mode2D=P.mode2D, seed=seed, **info)
-        d["finding"] = attribute(P, clause, info, probe.get("stages", {}))
+        d["finding"] = attribute(P, clause, info, probe)
         violations.append({"clause": clause, "detail": d})
 
     def done():
@@ -404,7 +442,7 @@ def run(tape):
     stats["scenes:knob-off"], stats["iterations:knob-off"] = len(scenes_off), its_off
     dig.update(repr([np.round(o["pos"], 9).tolist() for ob in obs_off for _, o in sorted(ob.items())]).encode())
     if not scenes_off:
-        stats["unjudged:knob-off-produced-no-scene"] = 1
+        stats["unjudged:knob-off-produced-no-scene"] = stats["no-knob-off-scene:" + P.family] = 1
 
     # clauses 4 and 5: the knob-on compile
     on = None
@@ -415,12 +453,9 @@ def run(tape):
     except Exception as e:  # noqa: BLE001
         stats[f"knob-on-compile-raised:{type(e).__name__}"] = 1
         if scenes_off:
-            msg, i = f"{type(e).__name__}: {e}"[:300], None
-            for j, s in enumerate(P.objs):
-                if f"cid {j}" in msg or (len(P.objs) == 1):
-                    i = j
-            zonly = any(isinstance(s.base, rr.Ref) and isinstance(s.cont, rr.Ref) and s.cont_flat and s.base is not s.cont and s.base.zs != s.cont.zs for s in P.objs if s.cont is not None)
-            viol("pruning-reports-infeasible", {"exception": msg, "knob_off_scenes": len(scenes_off), "knob_off_iterations": its_off, "object": i if i is not None else (0 if zonly else None), "z_only": zonly})
+            where = [f.name for f in traceback.extract_tb(e.__traceback__) if "/scenic/" in f.filename][-4:]
+            viol("pruning-reports-infeasible", {"phase": "compile", "exception": f"{type(e).__name__}: {e}"[:300], "where": where, "object": None,
+                                                "knob_off_scenes": len(scenes_off), "knob_off_iterations": its_off})
         else:
             stats["unjudged:knob-on-compile-failed-but-no-knob-off-scene"] = 1
     stats["helper-calls"] = probe.get("calls", 0)
@@ -483,6 +518,9 @@ def run(tape):
                 worst = {"object": i, "scene_index": k, "point": p.tolist(), "position": ob[i]["pos"].tolist(), "outside_by": d, "margin": margin,
                          "how": how, "pruned_region": repr(creg)[:160], "region_depends_on_other_objects": random_region,
                          "pruned_measure": measure(creg), "original_measure": measure(region_of(orig))}
+                src = "ego" if P.objs[i].require_visible else P.objs[i].visible_from
+                if src is not None:  # (as canSee's point branch computes it, as documented) for the object's centre
+                    worst["centre_in_view_cone_as_computed_and_as_documented"] = centre_seen(ob[[o.name for o in P.objs].index(src)], ob[i]["pos"])
             elif d > 1e-6 * max(1.0, margin) and d <= margin and how not in ("polygon", "polygon-z"):
                 stats["unjudged:outside-pruned-mesh-within-voxel-margin"] = stats.get("unjudged:outside-pruned-mesh-within-voxel-margin", 0) + 1
         stats["positions-checked-against-pruned-region"] = stats.get("positions-checked-against-pruned-region", 0) + judged
